@@ -289,16 +289,22 @@ def rule_noop_only_without_parent(ctx, facts, rule):
         return
     prov = Prov(facts)
     noops = [b for b in fn.calls_re(r"fastrace::span::Span::noop$", cleanup=False)]
+    def is_none(op):
+        if op["k"] not in ("copy", "move") or op["p"]:
+            return False
+        sd = fn.single_def(op["l"])
+        return bool(sd) and sd[1] != "term" and sd[2]["k"] == "assign" and sd[2]["rv"]["k"] == "agg" and sd[2]["rv"].get("variant") == "None"
     noops += [b for b, blk in enumerate(fn.blocks) if not blk["cleanup"] for st in blk["stmts"]
               if st["k"] == "assign" and st["rv"]["k"] == "agg" and st["rv"].get("adt") == "fastrace::span::Span"
-              and any(o.kind == "agg" and str(o.key).endswith("Option::None") for op in st["rv"]["ops"][:1] for o in prov.of_operand(fn, op))]
+              and st["rv"]["ops"][:1] and is_none(st["rv"]["ops"][0])]
     if not noops:
         ctx.ok(rule, fn.path, fn.span, "enter_with_parents never answers with a no-op span of its own accord", "", extra="noop-only-empty")
         return
 
     def empty_tok(o):
+        # the token: collected from the parents (`.collect()`), or a vector the parents' items are pushed into
         return any(v[0] == "call" and v[1].endswith("::is_empty") for v in o.via) and \
-            any(v[0] == "call" and re.search(r"Iterator>?::collect$|FromIterator", v[1]) for v in o.via)
+            (any(v[0] == "call" and re.search(r"Iterator>?::collect$|FromIterator", v[1]) for v in o.via) or (o.kind == "param" and o.key == 2))
     e = bool_cond_edges(fn, prov, empty_tok, True)
     whole = False
     for b in fn.calls_re(r"::is_empty$", cleanup=False):
